@@ -752,15 +752,58 @@ class Interp:
         env2.fn_qual = getattr(env, "fn_qual", None)
         rec(0, env2)
 
+    def comp_snapshot(self, e, env):
+        """elements of a symbolic comprehension are evaluated lazily: freeze the current bindings of the names it mentions
+        (Python evaluates the comprehension now, before any later rebinding of e.g. a loop variable)"""
+        names = set()
+        for g in e.generators:
+            for sub in [g.iter] + list(g.ifs):
+                names |= {n.id for n in ast.walk(sub) if isinstance(n, ast.Name)}
+        for part in ([e.elt] if hasattr(e, "elt") else [e.key, e.value]):
+            names |= {n.id for n in ast.walk(part) if isinstance(n, ast.Name)}
+        snap = {}
+        for nm in names:
+            v = env.lookup(nm)
+            if v is not NOTFOUND:
+                snap[nm] = v
+        env2 = Env(snap, env, env.module)
+        env2.comp_scope = True
+        env2.fn_qual = getattr(env, "fn_qual", None)
+        return env2
+
     def sym_comp(self, e, env):
         """single-generator comprehension over a symbolic-length array without filter -> pointwise SymArr"""
         if len(e.generators) != 1:
             return None
         g = e.generators[0]
-        if g.ifs:
+        env = self.comp_snapshot(e, env)
+        if g.ifs and not isinstance(g.iter, ast.Name):
             return None
         src = self.eval(g.iter, env)
-        from .heap import SortedPerm
+        from .heap import SortedPerm, SymObjList, FilteredArr
+        if isinstance(src, SymObjList):
+            if not isinstance(g.target, ast.Name):
+                raise Unsupported("comprehension over a symbolic record list needs a simple target")
+            nm0 = g.target.id
+
+            def elem_o(i):
+                env2 = Env({nm0: src.at(i)}, env, env.module)
+                env2.comp_scope = True
+                return self.eval(e.elt, env2)
+
+            if g.ifs:
+                def cond_o(i):
+                    env2 = Env({nm0: src.at(i)}, env, env.module)
+                    env2.comp_scope = True
+                    return band(*[bterm(mkbool(self.truth_term(self.eval(cc, env2)))) for cc in g.ifs])
+                return FilteredArr(src.length, elem_o, cond_o), src
+            probe = elem_o(z3.Int(ctx().fresh("cprobe")))
+            kind = "bool" if isinstance(probe, (bool, SBool)) else ("int" if isinstance(probe, (int, SInt)) else "xr")
+            r = SymArr(src.length, elem_o, kind)
+            r.is_list = True
+            return r, src
+        if g.ifs:
+            return None
         if isinstance(src, SortedPerm):
             # [f(i, rec) for i, rec in sorted(enumerate(L), key=...)]  ->  pointwise over the permutation
             if not (isinstance(g.target, ast.Tuple) and len(g.target.elts) == 2 and all(isinstance(t, ast.Name) for t in g.target.elts)):
@@ -1086,6 +1129,18 @@ class Interp:
         opn = type(op).__name__
         if isinstance(a, SymArr) or isinstance(b, SymArr):
             return npmodel.arr_binop(self, opn, a, b, inplace)
+        from .heap import SymObjList, FStr
+        if isinstance(a, SymObjList) and opn == "Add":
+            if isinstance(b, (SymObjList, list)):
+                return a.concat(b)
+            raise PyRaise("TypeError", "can only concatenate list to list")
+        if isinstance(b, SymObjList) and opn == "Add" and isinstance(a, list):
+            from .heap import from_pylist
+            return from_pylist(a).concat(b)
+        if opn == "Add" and (isinstance(a, FStr) or isinstance(b, FStr)) and isinstance(a, (str, FStr)) and isinstance(b, (str, FStr)):
+            pa = a.parts if isinstance(a, FStr) else [a]
+            pb = b.parts if isinstance(b, FStr) else [b]
+            return FStr(list(pa) + list(pb))
         if isinstance(a, str) or isinstance(b, str):
             if opn == "Add" and isinstance(a, str) and isinstance(b, str):
                 return a + b
